@@ -12,6 +12,8 @@ mod c09;
 #[cfg(kani)]
 pub mod c07;
 #[cfg(kani)]
+pub mod c07e;
+#[cfg(kani)]
 pub mod c03;
 #[cfg(kani)]
 pub mod c04;
